@@ -118,7 +118,7 @@ Proof.
     simpl in Es. destruct (stride r j) as [sdp' dj] eqn:Es'. inv Es. simpl fst in *. simpl snd in *.
     intros Hc x'.
     assert (Hdp' : 0 < dp * d0) by nia.
-    pose proof (IH j (dp * d0) x c' sdp' d Hdp' Hj' eq_refl Hc) as IH'. cbv zeta in IH'.
+    pose proof (IH j (dp * d0) x c' sdp' d Hdp' Hj' Es' Hc) as IH'. cbv zeta in IH'.
     replace (dp * d0 * sdp') with (dp * (d0 * sdp')) in IH' by ring.
     fold x' in IH'. destruct IH' as (A & B & C).
     repeat split.
